@@ -41,7 +41,7 @@ SQLITE_ERRORS = {"OperationalError", "ProgrammingError", "IntegrityError", "Data
                  "NotSupportedError", "DataError", "Warning"}
 PURGES = ["purge_broker", "purge_orchestrator", "purge_state_backend", "purge_trigger", "purge_client_data_store", "purge_app"]
 PREAMBLE = ["route", "route", "route_keyed", "retrieve", "set_status", "set_status", "sb_result", "sb_exception", "heartbeat",
-            "store_rctx", "wf_data", "wait", "cds_store", "reg_trigger", "emit", "cron", "claim"]
+            "store_rctx", "wf_data", "wait", "cds_store", "reg_trigger", "emit", "cron", "claim", "cron_tick"]
 
 
 def tables_classes():
@@ -328,7 +328,7 @@ def diff(a, b, path="") -> str:
 
 
 def run_scenario(kind: str, ids: list[str], steps: list[tuple[int, str, int]], tmp: str, full_every: bool = True,
-                 report=None, stats: dict | None = None) -> list[dict]:
+                 report=None, stats: dict | None = None, solo: bool = True) -> list[dict]:
     """Build one application per id (SQLite: all on one file), run the preamble on each, then the steps.
     Returns the violations found (dicts with signature / what)."""
     found: list[dict] = []
@@ -382,9 +382,11 @@ def run_scenario(kind: str, ids: list[str], steps: list[tuple[int, str, int]], t
         def inv_ids(j: int) -> set[str]:
             return set(hs[j].inv_ids())
 
+        outs: list[list[tuple[str, int, str]]] = [[] for _ in hs]
         for k, h in enumerate(hs):
             for n, op in enumerate(PREAMBLE):
                 r = h.do(op, 3 * n + k)
+                outs[k].append((op, 3 * n + k, r))
                 if r.startswith("err:") and r[4:] in SQLITE_ERRORS:
                     rep(f"storage-error[{kind}]:{op}:{r[4:]}", f"[{kind}] ids {ids!r}: {op} on {ids[k]!r} failed with {r[4:]} while setting up", -1)
         snaps = [snap(j, True) for j in range(len(hs))]
@@ -392,6 +394,7 @@ def run_scenario(kind: str, ids: list[str], steps: list[tuple[int, str, int]], t
         for step, (k, op, arg) in enumerate(steps):
             h = hs[k]
             out = h.do(op, arg)
+            outs[k].append((op, arg, out))
             if stats is not None:
                 stats["steps"] = stats.get("steps", 0) + 1
                 stats.setdefault("ops", {}).setdefault(op, 0)
@@ -423,6 +426,30 @@ def run_scenario(kind: str, ids: list[str], steps: list[tuple[int, str, int]], t
             check_trace(op, step)
             if found:
                 break
+        # ---- the presence of the other applications changes nothing for an application: replayed ALONE (its own operations only,
+        #      a fresh store), every one of its operations answers the same
+        if solo and not found:
+            if tracer:
+                tracer.uninstall()
+            for k, i in enumerate(ids):
+                d2 = tempfile.mkdtemp(dir=tmp)
+                try:
+                    h2 = Handle(kind, d2, i, os.path.join(d2, "solo.db") if kind == "sqlite" else None, None)
+                    for n, (op, arg, together) in enumerate(outs[k]):
+                        alone = h2.do(op, arg)
+                        if stats is not None:
+                            stats["solo_ops"] = stats.get("solo_ops", 0) + 1
+                        if alone != together:
+                            rep(f"presence-changes-behaviour[{kind}]:{op}", f"[{kind}] ids {ids!r}: operation #{n} ({op} {arg}) of application {i!r} answers {together!r} when the other "
+                                f"applications share the {'database file' if kind == 'sqlite' else 'process'} and {alone!r} when it runs alone with the same history", len(steps) - 1)
+                            break
+                except BaseException as e:  # noqa: BLE001
+                    if stats is not None:
+                        stats.setdefault("solo_errors", []).append(f"{type(e).__name__}: {e}"[:120])
+                finally:
+                    shutil.rmtree(d2, ignore_errors=True)
+                if found:
+                    break
         return found
     finally:
         if tracer:
